@@ -219,6 +219,7 @@ fn main() {
         "e3shard" => e3::shard_main(&args[2..], &|prop, tier| match prop {
             "C14" => props::c14::bodies(tier),
             "C06" => props::c06::bodies(tier),
+            "C02" => props::c02::bodies(tier),
             "C13" => props::c13::bodies(tier),
             "C16" => props::c16::bodies(tier),
             "C01" => props::c01::bodies(tier),
